@@ -296,6 +296,22 @@ def c10_4(ctx):
         for nm, tp, what in (("der-trailing-after-sequence", outer, "sigdecode_der(strict): bytes after the end of the SEQUENCE (sig + b'\\x00')"),
                              ("der-trailing-inside-sequence", inner, "sigdecode_der(strict): bytes after the second INTEGER inside the SEQUENCE")):
             sym.must_refuse(ctx, ws, nm, ctx.where(sd), what, lambda a, tp=tp: a.startswith("truthy(") and tp(a[7:-1]), tp, assume=strict)
+    # the encoder writes the two integers it was given: sigdecode_der(sigencode_der(r, s)) is (r, s) for EVERY pair (a canonical
+    # low-S form is the signer's business -- C05.2 -- not the codec's)
+    se = ctx.func(DER, "sigencode_der")
+    wse = sym.walk(ctx, se)
+    encs = sym.calls_matching(wse, lambda t: t == "encode_integer" or t.endswith(".encode_integer"))
+    if not encs:
+        ctx.undecided("der-encoder-identity", ctx.where(se), "sigencode_der does not call encode_integer")
+    prs = set(se.params())
+    for e in encs:
+        a = e.call.args[0] if e.call.args else None
+        if isinstance(a, ast.Name) and a.id in prs:
+            ctx.ok("der-encoder-identity", sample={"encodes": a.id})
+        elif a is not None and any(isinstance(x, ast.Name) and x.id in prs for x in ast.walk(a)) and any(isinstance(x, (ast.BinOp, ast.UnaryOp)) for x in ast.walk(a)):
+            ctx.bad("der-encoder-identity", ctx.where(se, e.node), "sigencode_der encodes `%s`, not the integer it was given: the DER codec no longer returns what went in (sigdecode_der(sigencode_der(r, s)) != (r, s) for some s)" % norm(a)[:70])
+        else:
+            ctx.undecided("der-encoder-identity", ctx.where(se, e.node), "sigencode_der encodes `%s`; this rule reads parameters" % (norm(a)[:60] if a is not None else ""))
     # callers of the lenient / strict decoder handle exactly the documented errors
     for rel, fn, callee in (("pycoin/satoshi/checksigops.py", "checksigs", "parse_and_check_signature_blob"), (KEY, "Key.verify", "sigdecode_der")):
         c = ctx.func(rel, fn)
